@@ -221,6 +221,17 @@ def stmt_faults():
     F["F20b"] = ([("count", True, "k", ("int", 2), [("call",) + GOOD_CALL, ("call",) + GOOD_CALL])], 0, None)
     F["F20c"] = ([("count", True, "k", ("int", 2), [("count", False, "m", ("int", 1), [svc()])])], 0, None)
     F["F20d"] = ([("count", True, "k", ("int", 2), [("parallel", [GOOD_CALL])])], 0, None)
+    # exactly one task call TOGETHER WITH other statements
+    F["F20e"] = ([("count", True, "k", ("int", 2), [("call",) + GOOD_CALL, svc()])], 0, None)
+    F["F20f"] = ([("count", True, "k", ("int", 2), [svc(), ("call",) + GOOD_CALL])], 0, None)
+    F["F20g"] = ([("count", True, "k", ("int", 2), [("call",) + GOOD_CALL, ("count", False, "m", ("int", 1), [svc()])])], 0, None)
+    F["F20h"] = ([("count", True, "k", ("int", 2), [("call",) + GOOD_CALL, svc([("var", "zz")])])], 0, None)
+    # compensating count mismatches: inputs off by +k, outputs by -k (fcallee: 2 inputs, 1 output)
+    F["F16g"] = ([("call", "fcallee", [("var", "q"), P("q", "count"), P("q", "count")], [])], 0, None)
+    F["F16h"] = ([("call", "fcallee", [("var", "q")], [("x1", FIN), ("x2", FIN)])], 0, None)
+    F["F16i"] = ([("parallel", [GOOD_CALL, ("fcallee", [("var", "q")], [("x2", FIN), ("x3", FIN)])])], 0, 1)
+    F["F16j"] = ([("count", True, "k", ("int", 2), [("call", "fcallee", [("var", "q"), P("q", "count"), P("q", "count")], [])])], 0, 0)
+    F["F16k"] = ([("call", "fcallee", [], [("x1", FIN), ("x2", FIN), ("x3", FIN)])], 0, None)
     return F
 
 
@@ -231,7 +242,7 @@ EXTRA_STRUCTS = {"F08s": [FTW], "F08t": [FTW]}
 # catalogue entries whose mutants satisfy the documented rules (wf_dec) and still have to be rejected
 WF_BUT_REJECTED = {"F18t", "F18u", "F18v", "F18w", "F18x", "F18y", "F18z"}
 
-DEF_FAULTS = ["F03a", "F03b", "F03e", "F03f", "F10a", "F11a", "F12a", "F13a", "F14a", "F15a", "F15b", "F15c",
+DEF_FAULTS = ["F03a", "F03b", "F03e", "F03f", "F10a", "F11a", "F12a", "F13a", "F14a", "F15a", "F15b", "F15c", "F15d", "F15e",
               "F19a", "F19b", "F19c", "F19d", "F19e", "F19f", "F19g"]
 ALL_FAULTS = sorted(STMT_FAULTS) + DEF_FAULTS
 
@@ -377,6 +388,12 @@ def inject_def(p, rng, fault):
         info["span"] = "file"
     elif fault == "F15a":         # undeclared task output
         ti = add_task(p, "tnew", [svc(name="Sn")], outs=["zz"])
+        info["span"] = ("span_task", ti)
+    elif fault in ("F15d", "F15e"):   # undeclared task output, and the task is called with as many outputs
+        outs = ["zz"] if fault == "F15d" else ["zz", "s1"]
+        ti = add_task(p, "tnew", [svc(outs=[("s1", FIN)], name="Sn")], outs=outs)
+        call = ("call", "tnew", [], [("y%d" % i, FIN) for i in range(len(outs))])
+        tasks[prod]["body"].append(call if fault == "F15d" else ("count", False, "w", ("int", 1), [("cond", ("bool", True), [call], [])]))
         info["span"] = ("span_task", ti)
     elif fault in ("F15b", "F15c"):   # task output named like the counting variable of a loop of the task
         loop = ("count", False, "k", ("int", 2), [svc(name="Sn")])
